@@ -11,7 +11,8 @@ the weight rows and function values that the evaluator reports.
 
 Variants:  plain / unused-filter-first (another filter is configured at index 0 and used by nobody) / second-call (the
 evaluator has already evaluated another point, with another failure pattern) / prior-instance (another evaluator and
-filter, configured differently, was created and used before in the same interpreter).
+filter, configured differently, was created and used before in the same interpreter) / second-of-a-batch (the point is the second
+member of a batch of two vectors evaluated in one call, the first member having other values: each member is filtered on its own values).
 """
 from __future__ import annotations
 
@@ -43,7 +44,7 @@ def cases_filter_chain(methods, tier):
     for method in methods:
         bks = ("upper", "lower", "equality") if method == "cvar-constraint" else ("upper",)
         for bk in bks:
-            for variant in ("plain", "unused-filter-first", "second-call", "prior-instance"):
+            for variant in ("plain", "unused-filter-first", "second-call", "prior-instance", "second-of-a-batch"):
                 extra = []
                 if method == "cvar-objective" and variant == "plain":
                     # I = a successful realization whose ranked value is -inf (unboundedly good): outside the tail, weight exactly zero,
@@ -70,7 +71,9 @@ def _build(T, ch, case, method, bk, options, tables, unused_first=False, tag="")
     if unused_first:
         entries.insert(0, types.SimpleNamespace(method="sort-objective", options={"sort": [0], "first": 0, "last": 0}))
     fcls = ch.get(M, "DefaultRealizationFilter")
-    sev = H.ScriptedEvaluator(T, ch, lambda v, r, p, k: tables["O"][r], lambda v, r, p, k: tables["C"][r])
+    # (in a batch the rows come member by member: k // R is the member)
+    pick = lambda name, r, k: tables[name + "_member0"][r] if k // R == 0 and (name + "_member0") in tables else tables[name][r]  # noqa: E731
+    sev = H.ScriptedEvaluator(T, ch, lambda v, r, p, k: pick("O", r, k), lambda v, r, p, k: pick("C", r, k))
     ev = H.make_evaluator(T, ch, cfg, sev, filters=entries, configured={"realization_filters": tuple(entries)},
                           factories={"realization_filter": lambda config, index: fcls(config, index)})
     return ev, cfgw, rhs
@@ -111,7 +114,11 @@ def scn_filter_chain(T, case, prefix):
             live["O"], live["C"] = T.real("O_first", (R, 1), nan=first_nan), T.real("C_first", (R, 2))
             ev.calculate(T.real("x_first", (2,)), compute_functions=True, compute_gradients=False)
             live["O"], live["C"] = tables["O"], tables["C"]
-        (res,) = ev.calculate(x, compute_functions=True, compute_gradients=False)
+        if variant == "second-of-a-batch":
+            live["O_member0"], live["C_member0"] = T.real("O_member0", (R, 1)), T.real("C_member0", (R, 2))
+            _, res = ev.calculate(T.np.stack([T.real("x_member0", (2,)), x]), compute_functions=True, compute_gradients=False)
+        else:
+            (res,) = ev.calculate(x, compute_functions=True, compute_gradients=False)
     except OptimizationAborted as exc:
         # the filters run before the min-success gate: a filter that finds no successful member to select ends the evaluation with
         # TOO_FEW_REALIZATIONS (sort: the window starts beyond the successes; CVaR: nothing succeeded) - and only then
